@@ -154,7 +154,7 @@ def run(tier, replay=None):
                 raise RuntimeError("single-fit worker failed: " + lo_[0][1][-800:])
             louts = json.load(open(op))
             # the labels entry point on trees with (negative) integer constants: returned DL = likelihood + parameter code + Trees!Code
-            ilabs = [["*", "a0", "pow", "x", "-2"], ["+", "*", "a0", "x", "-2"], ["+", "*", "a0", "pow", "x", "-3", "a1"], ["/", "a0", "pow", "x", "2"], ["+", "*", "a0", "x", "3"]]
+            ilabs = [["a0"], ["*", "a0", "pow", "x", "-2"], ["+", "*", "a0", "x", "-2"], ["+", "*", "a0", "pow", "x", "-3", "a1"], ["/", "a0", "pow", "x", "2"], ["+", "*", "a0", "x", "3"]]
             # trees in which a parameter cancels (library trees of complexity 7: the pipeline fits the simplified function and charges the tree's own
             # code): [labels, labels of the function that is left]; the closed form is that of the reduced function
             cancel = {("+", "*", "a0", "x", "-", "a1", "a1"): ["*", "a0", "x"], ("+", "-", "a0", "a0", "*", "a1", "x"): ["*", "a0", "x"],
